@@ -234,7 +234,11 @@ def run_shards(binpath, prop, cfg, tier, nshards, scratch, log, replay=None, see
             env["GOMAXPROCS"] = "2"
         cmd = [binpath, "-test.run", "^" + cfg["test"] + "$", "-test.v", "-test.timeout", f"{int(deadline*2+600)}s"]
         # memory guard: address-space limit per worker (Go reserves lots of VA, so be generous)
-        wrapped = ["bash", "-c", "ulimit -v 33554432; exec \"$@\"", "--"] + cmd
+        if VARIANTS[cfg.get("variant", "plain")].get("race"):
+            wrapped = cmd  # the race detector needs a very large address space
+            env["GORACE"] = "halt_on_error=0 history_size=3"
+        else:
+            wrapped = ["bash", "-c", "ulimit -v 33554432; exec \"$@\"", "--"] + cmd
         lf = open(os.path.join(scratch, f"run_{i}.log"), "w")
         procs.append((subprocess.Popen(wrapped, cwd=scratch, env=env, stdout=lf, stderr=subprocess.STDOUT), lf, i))
     rcs = []
@@ -253,6 +257,39 @@ def run_shards(binpath, prop, cfg, tier, nshards, scratch, log, replay=None, see
         log.write(f"--- shard {i} rc={rc}\n{txt[-20000:]}\n")
     log.flush()
     return rcs
+
+
+def scan_race_reports(prop, scratch):
+    """Turn `WARNING: DATA RACE` blocks in worker logs into violations (signature = first repository frame)."""
+    import re
+    out = {}
+    for p in sorted(glob.glob(os.path.join(scratch, "run_*.log"))):
+        with open(p, errors="replace") as f:
+            txt = f.read()
+        for block in txt.split("WARNING: DATA RACE")[1:]:
+            block = block.split("==================")[0]
+            # the racing accesses are the first frame of each stack ("… by goroutine N:" sections)
+            heads = re.findall(r"(?:Read|Write|Previous read|Previous write) at [^\n]*\n\s+(\S+)\(\)\n\s+(\S+?):\d+", block)
+            repo_heads = [fn for fn, fl in heads if "/zzv_" not in fl and "/internal/verif/" not in fl]
+            if heads and not repo_heads:
+                # both accesses are in harness code: a harness bug, never an alarm
+                sig = f"{prop}:HARNESS-RACE"
+                out.setdefault(sig, {"space": "race-pass-free-running", "sig": sig, "detail": "race between harness accesses: " + block[:800],
+                                     "choices": [], "labels": [], "count": 0, "replay": "", "confirmed": False})
+                out[sig]["count"] += 1
+                continue
+            top = (repo_heads[0] if repo_heads else "unknown").split("/vgirpc.")[-1]
+            sig = f"{prop}:data-race:{top}"
+            if sig in out:
+                out[sig]["count"] += 1
+                continue
+            os.makedirs(os.path.join(VERIF, "replays"), exist_ok=True)
+            rp = os.path.join(VERIF, "replays", f"race_{prop}_{hashlib.sha256(sig.encode()).hexdigest()[:10]}.txt")
+            with open(rp, "w") as f:
+                f.write("WARNING: DATA RACE" + block)
+            out[sig] = {"space": "race-pass-free-running", "sig": sig, "detail": ("WARNING: DATA RACE" + block)[:1500],
+                        "choices": [], "labels": [], "count": 1, "replay": rp, "confirmed": True}
+    return list(out.values())
 
 
 def merge_reports(scratch, nshards):
@@ -375,6 +412,10 @@ def run(prop, cfg, a, seed, scratch, log, t0):
             nshards = 1
         rcs = run_shards(binpath, prop, part, a.tier, nshards, pscratch, log, replay=a.replay, seed=seed)
         m = merge_reports(pscratch, nshards)
+        if VARIANTS[part.get("variant", "plain")].get("race"):
+            m["violations"] += scan_race_reports(prop, pscratch)
+            m["info"]["race_pass"] = "free-running -race complement (sampling, not exhaustive): %d executions" % sum(
+                s["executions"] for s in m["spaces"])
         if m["n_reports"] != nshards:
             print(f"ENGINE-ERROR property={prop}: {m['n_reports']} of {nshards} worker reports written (rcs={rcs}); see {log.name}")
             tail = ""
@@ -389,7 +430,8 @@ def run(prop, cfg, a, seed, scratch, log, t0):
                 dst_dir = os.path.join(VERIF, "replays")
                 os.makedirs(dst_dir, exist_ok=True)
                 dst = os.path.join(dst_dir, os.path.basename(v["replay"]))
-                shutil.copy(v["replay"], dst)
+                if os.path.abspath(v["replay"]) != os.path.abspath(dst):
+                    shutil.copy(v["replay"], dst)
                 v["replay"] = dst
         for k in ("spaces", "violations", "engine_errors"):
             merged_all[k] += m[k]
